@@ -199,6 +199,41 @@ static void run_engine (const char *eng, const char *text, int dump_p) {
       if (f->item_type == MIR_func_item && strcmp (f->u.func->name, "main") == 0) main_func = f;
     MIR_load_module (ctx, m);
   }
+  if (eng[0] == 'S') {
+    /* simplified code (functions are simplified by MIR_link; meaningful with a library built with
+       inlining off): for every function the first group of consolidated constant allocas:
+       name:total:off,off,...  (the first block has offset 0) */
+    for (int i = 0; externals[i].name != NULL; i++) MIR_load_external (ctx, externals[i].name, externals[i].addr);
+    MIR_link (ctx, MIR_set_interp_interface, NULL);
+    oprintf ("SIMP");
+    for (MIR_module_t m = DLIST_HEAD (MIR_module_t, *MIR_get_module_list (ctx)); m != NULL;
+         m = DLIST_NEXT (MIR_module_t, m))
+      for (MIR_item_t f = DLIST_HEAD (MIR_item_t, m->items); f != NULL; f = DLIST_NEXT (MIR_item_t, f)) {
+        if (f->item_type != MIR_func_item) continue;
+        int seen_insn_p = 0;
+        for (MIR_insn_t in = DLIST_HEAD (MIR_insn_t, f->u.func->insns); in != NULL;
+             in = DLIST_NEXT (MIR_insn_t, in)) {
+          if (in->code == MIR_LABEL && seen_insn_p) break;
+          if (in->code == MIR_LABEL) continue;
+          seen_insn_p = 1;
+          if (in->code != MIR_ALLOCA) continue;
+          MIR_insn_t pr = DLIST_PREV (MIR_insn_t, in), nx;
+          if (pr == NULL || pr->code != MIR_MOV || pr->ops[1].mode != MIR_OP_INT) break;
+          oprintf (" %s:%llx:0", f->u.func->name, (unsigned long long) pr->ops[1].u.i);
+          for (nx = DLIST_NEXT (MIR_insn_t, in); nx != NULL; nx = DLIST_NEXT (MIR_insn_t, nx)) {
+            MIR_insn_t ad = DLIST_NEXT (MIR_insn_t, nx);
+            if (nx->code != MIR_MOV || nx->ops[1].mode != MIR_OP_INT || ad == NULL || ad->code != MIR_ADD
+                || ad->ops[1].mode != MIR_OP_REG || ad->ops[1].u.reg != in->ops[0].u.reg
+                || ad->ops[2].mode != MIR_OP_REG || ad->ops[2].u.reg != nx->ops[0].u.reg)
+              break;
+            oprintf (",%llx", (unsigned long long) nx->ops[1].u.i);
+            nx = ad;
+          }
+          break;
+        }
+      }
+    flush_and_exit (0);
+  }
   if (main_func == NULL) {
     oprintf ("HARNESS-ERROR no main");
     flush_and_exit (0);
